@@ -135,6 +135,35 @@ Theorem C14_source_authmsg_uses_raw_server_first : Gen.scram_authmsg_uses_raw_se
 Proof. exact ScramProofs.gen_authmsg_raw. Qed.
 Print Assumptions C14_source_authmsg_uses_raw_server_first.
 
+(* ---- challenges reach the mechanism exactly as issued ----
+   T1: in smtp.Client.Auth the decoded challenge is handed to a.Next unchanged (no trimming / re-encoding in between) *)
+Theorem C14_source_challenge_passed_unchanged : Gen.smtp_auth_challenge_passed_unchanged = true.
+Proof. exact gen_challenge_passed_unchanged. Qed.
+Print Assumptions C14_source_challenge_passed_unchanged.
+
+(* for any mechanism and any challenge bytes (blanks, tabs, CR, LF anywhere): the response on the wire is the base64 of
+   what Next returns for exactly the issued challenge *)
+Theorem C14_auth_loop_passes_challenge : forall S (m : mech S) active name (s s' : S) chal resp rest o,
+  wf_bytes chal = true ->
+  m_next m s chal true = (s', Some (Some resp)) ->
+  o_sent (f_out (auth_loop m active name s code_challenge (b64enc chal) rest o)) =
+  match rest with
+  | Reply c mm :: rest' => o_sent (f_out (auth_loop m active name s' c mm rest' (cmd_out active (b64enc resp) (Reply c mm) o)))
+  | _ => o_sent o ++ [b64enc resp]
+  end.
+Proof. exact auth_loop_passes_challenge. Qed.
+Print Assumptions C14_auth_loop_passes_challenge.
+
+(* CRAM-MD5 through Client.Auth: the response is the RFC 2195 response to exactly the issued challenge, and the RFC 2195
+   server (HMAC-MD5 over the challenge it issued) accepts it *)
+Theorem C14_cram_auth_answers_issued_challenge : forall (HMACmd5 : bytes -> bytes -> bytes) user secret chal lad secret_of,
+  wf_bytes chal = true -> secret_of user = Some secret ->
+  let f := auth (cram_mech HMACmd5 user secret) lad false tt [Reply code_challenge (b64enc chal)] in
+  o_sent (f_out f) = [bs "AUTH CRAM-MD5"; b64enc (cram_response HMACmd5 user secret chal)] /\
+  cram_server HMACmd5 secret_of chal (cram_response HMACmd5 user secret chal) = true.
+Proof. exact cram_auth_answers_issued_challenge. Qed.
+Print Assumptions C14_cram_auth_answers_issued_challenge.
+
 (* internal/pbkdf2.Key (block loop, U/T xor loop, transliterated in Scram.pbkdf2_key) is RFC 5802's Hi when the key
    length is the hash length (one block), for every HMAC with outputs of one length and every iteration count >= 1 *)
 Theorem C14_pbkdf2_is_Hi : forall (HMAC : bytes -> bytes -> bytes) (n : nat) pw salt (i : nat),
